@@ -12,3 +12,4 @@ CONSTANTS
   Tbc = TRUE
   ViewHist = 1
   EmitAll = TRUE
+  WithKill = TRUE
